@@ -231,57 +231,72 @@ for _p, _t in _R8.items():
 # reach at least the same.  Generated by mkfloors.py from the evidence files; not tuned per seed.
 FLOORS_QUICK = {
  "C01": {
+  "long-lived-probes": 73,
+  "reads-during-operation": 86,
   "states": 232,
   "walks": 80
  },
  "C02": {
-  "ops-silent": 391808,
-  "ops-with-events": 1981195,
+  "ops-silent": 390930,
+  "ops-with-events": 1980214,
   "states": 232
  },
  "C03": {
-  "convergence-checks": 392,
+  "big-collection-cases": 3,
+  "convergence-checks": 428,
   "drain-all-phases": 51,
   "mirror-checks": 364,
-  "per-list-checks": 112,
-  "post-list-checks": 120,
-  "restart-version-checks": 5480
+  "per-list-checks": 121,
+  "post-list-checks": 180,
+  "relist-at-reconnect-expiry-cases": 60,
+  "restart-version-checks": 5485,
+  "status-at-relist-cases": 36
  },
  "C04": {
-  "continuity-checks": 398,
-  "reconnect-version-checks": 671,
-  "reconnects": 671
+  "continuity-checks": 666,
+  "reconnect-version-checks": 1013,
+  "reconnects": 1013,
+  "relist-at-reconnect-expiry-cases": 60,
+  "relist-during-retry-cases": 8
  },
  "C05": {
   "burst-then-stop-cases": 40,
   "controller-path-leaves": 281,
-  "events-received": 366458,
-  "leaves": 1771,
+  "events-received": 366499,
+  "filtered-root-cases": 12,
+  "leaves": 1837,
   "mid-burst-closes": 533,
   "mid-burst-subscribers": 719,
+  "mid-stream-filtered-subscriber-checks": 12344,
   "stale-wire-events": 2362
  },
  "C06": {
-  "filtered-node-checks": 20424,
-  "filtered-node-checks-nonempty": 11323,
+  "filtered-node-checks": 35905,
+  "filtered-node-checks-nonempty": 22044,
+  "late-first-filter-cases": 12,
   "mid-flow-closes": 710,
-  "mirror-checks": 9457,
-  "refilters": 6430
+  "mirror-checks": 9415,
+  "ready-moments": 640,
+  "refilters": 6467
  },
  "C07": {
-  "back-to-back-refilters": 2048,
+  "back-to-back-refilters": 4096,
+  "caller-slice-refilters": 10,
   "pairs": 16384,
-  "refilters-silent": 6108,
-  "refilters-with-delta": 5156
+  "refilters-after-parent-history": 5760,
+  "refilters-below-filtered-parent": 256,
+  "refilters-silent": 6160,
+  "refilters-with-delta": 5104
  },
  "C08": {
-  "content-at-readiness-checks": 61728,
+  "content-at-readiness-checks": 62012,
   "controller-readiness-cases": 60,
   "directed-stale-inflight-attempts": 50,
   "failed-first-list-cases": 10,
   "not-ready-while-listing-checks": 48,
   "ready-state-checks": 668820,
-  "sequences": 64224
+  "sequences": 64224,
+  "stopped-around-first-list-cases": 48
  },
  "C09": {
   "close-cycles": 220,
@@ -291,69 +306,85 @@ FLOORS_QUICK = {
   "join-context-cancelled-early": 100,
   "join-mirror-checks": 410,
   "late-destination-joins": 9,
-  "ready-order-checks": 220
+  "lossy-destination-watch-cases": 10,
+  "ready-order-checks": 220,
+  "sibling-joins-closed-mid-stream": 831
  },
  "C10": {
   "blocked-monitors-checked": 44,
   "cache-current-checks": 586,
-  "healthy-streams-checked": 222,
+  "healthy-streams-checked": 232,
+  "resumed-consumer-checks": 48,
   "slow-streams-checked": 47,
+  "stalled-consumers-closed-mid-overrun": 8,
   "stalled-refilter-checks": 19,
-  "stalled-streams-checked": 180,
+  "stalled-streams-checked": 171,
   "stress-typed-cases": 8,
-  "stress-typed-reads": 1677
+  "stress-typed-reads": 1688
  },
  "C11": {
   "outside-nodes-checked": 813,
-  "subtree-nodes-checked": 649,
+  "overrun-then-close-cases": 6,
+  "point-triggered-shutdowns": 288,
+  "subtree-nodes-checked": 3363,
   "survivor-rounds": 87
  },
  "C12": {
-  "post-done-api-calls": 27082,
-  "racing-calls": 1488,
-  "set:trigger-points": 17,
-  "terminations": 372
+  "post-done-api-calls": 42466,
+  "racing-calls": 3689,
+  "set:trigger-points": 23,
+  "stops-at-reconnect-expiry": 48,
+  "terminations": 659
  },
  "C13": {
-  "count-checks": 72,
-  "gap-checks": 1561,
-  "lists": 1633
+  "count-checks": 87,
+  "ctx-consultation-shutdowns": 161,
+  "gap-checks": 1566,
+  "list-error-cases": 6,
+  "lists": 2068
  },
  "C14": {
-  "failstop-checks": 54,
-  "never-ready-checks": 10,
-  "not-fatal-checks": 56
+  "failstop-checks": 81,
+  "never-ready-checks": 13,
+  "not-fatal-checks": 84,
+  "stops-at-reconnect-expiry": 24
  },
  "C15": {
+  "big-gets": 2607,
   "big-histories": 24,
-  "big-snapshots": 5480,
+  "big-snapshots": 4775,
+  "cancelled-mid-relist": 12,
+  "churn-caches": 960,
   "histories": 160,
   "linearizable": 160,
-  "reads": 10525
+  "reads": 10189
  },
  "C16": {
-  "callbacks": 3037,
-  "exact-stream-checks": 30,
-  "init-content-checks": 63,
-  "no-callback-checks": 9
+  "callbacks": 6732,
+  "close-during-initialize-rounds": 225,
+  "exact-stream-checks": 69,
+  "init-content-checks": 67,
+  "no-callback-checks": 36,
+  "siblings-closed-mid-stream": 536
  },
  "C17": {
-  "pairs": 8786898,
-  "pairs-reported-equal": 8325,
-  "permutation-checks": 536,
-  "rebuilt-checks": 26534
+  "pairs": 65920800,
+  "pairs-reported-equal": 21215,
+  "permutation-checks": 614,
+  "rebuilt-checks": 29394
  },
  "C18": {
-  "accept-evaluations": 281424,
-  "composite-terms": 1290
+  "accept-evaluations": 1273590,
+  "composite-terms": 4610
  },
  "C19": {
-  "accepting-evaluations": 372926,
-  "ownership-evaluations": 1114175
+  "accepting-evaluations": 596567,
+  "ownership-evaluations": 2194408
  },
  "C20": {
   "cache-comparisons": 4624,
-  "callback-comparisons": 2312,
+  "callback-comparisons": 2318,
+  "closed-with-unread-events-checks": 18,
   "context-cancel-lifecycle-checks": 6,
   "foreign-objects-in-untyped-cache": 1282,
   "overflow-checks": 48,
